@@ -116,7 +116,7 @@ HARMLESS = [
     ("rename-reply-local", [(D + "contract/communication/reply.rs", "sub_msg_resp", "sub_response")], "local binding name inside dispatch_reply"),
     ("variant-order-reversed", [(D + "types/msg_variant.rs", "    pub fn emit(&self) -> impl Iterator<Item = TokenStream> + '_ {\n        self.variants.iter().map(MsgVariant::emit)", "    pub fn emit(&self) -> impl Iterator<Item = TokenStream> + '_ {\n        self.variants.iter().rev().map(MsgVariant::emit)")], "enum variants emitted in reverse order (wire format is keyed by name)"),
     ("entry-point-let-contract", [(D + "entry_points.rs", "msg.dispatch(& #contract_turbofish ::new() , ( #values )).map_err(Into::into)", "let contract = #contract_turbofish ::new();\n                msg.dispatch(&contract, ( #values )).map_err(Into::into)")], "entry point binds the contract with a let before dispatching"),
-    ("executor-let-encoded-msg", [(D + "contract/communication/executor.rs", "Ok(#sylvia ::types::ExecutorBuilder::<#sylvia ::types::ReadyExecutorBuilderState>::new(\n                    self.contract().to_owned(),\n                    self.funds().to_owned(),\n                    #sylvia ::cw_std::to_json_binary( & #api_path :: #variant_name (#(#fields_names),*) )?,\n                ))", "let encoded = #sylvia ::cw_std::to_json_binary( & #api_path :: #variant_name (#(#fields_names),*) )?;\n                Ok(#sylvia ::types::ExecutorBuilder::<#sylvia ::types::ReadyExecutorBuilderState>::new(\n                    self.contract().to_owned(),\n                    self.funds().to_owned(),\n                    encoded,\n                ))")], "executor helper encodes the message into a local first"),
+    ("executor-let-encoded-msg", [(D + "contract/communication/executor.rs", "Ok(#sylvia ::types::ExecutorBuilder::<#sylvia ::types::ReadyExecutorBuilderState>::new(\n                    #sylvia ::types::ExecutorBuilder::contract(&self).to_owned(),\n                    #sylvia ::types::ExecutorBuilder::funds(&self).to_owned(),\n                    #sylvia ::cw_std::to_json_binary( & #api_path :: #variant_name (#(#fields_names),*) )?,\n                ))", "let encoded = #sylvia ::cw_std::to_json_binary( & #api_path :: #variant_name (#(#fields_names),*) )?;\n                Ok(#sylvia ::types::ExecutorBuilder::<#sylvia ::types::ReadyExecutorBuilderState>::new(\n                    #sylvia ::types::ExecutorBuilder::contract(&self).to_owned(),\n                    #sylvia ::types::ExecutorBuilder::funds(&self).to_owned(),\n                    encoded,\n                ))")], "executor helper encodes the message into a local first"),
     ("reply-let-ctx", [(D + "contract/communication/reply.rs", "#contract_turbofish ::new(). #method_name ((deps, env, gas_used, events, msg_responses).into(), #data #(#payload_values),* )", "let sv_ctx = (deps, env, gas_used, events, msg_responses).into();\n                        #contract_turbofish ::new(). #method_name (sv_ctx, #data #(#payload_values),* )")], "dispatch_reply binds the success context with a let"),
     ("wrapper-contains", [(D + "types/interfaces.rs", "if msgs.into_iter().any(|msg| msg == &recv_msg_name) {", "if msgs.contains(&recv_msg_name.as_str()) {"), (D + "contract/communication/wrapper_msg.rs", "if msgs.into_iter().any(|msg| msg == &recv_msg_name) {", "if msgs.contains(&recv_msg_name.as_str()) {")], "membership test spelled with contains()"),
     ("rename-keyword-table-fn", [(D + "types/msg_type.rs", "pub fn emit_ep_name(self)", "pub fn ep_ident(self)"), (D, None, None)], "rename MsgType::emit_ep_name everywhere"),
